@@ -54,6 +54,7 @@ def run(ctx):
     #     the trigger is torn down), CloseSubscription from the source
     jobs.append(("sim3", sc.gen_cfg("sim3", NS=3, MaxEvents=1, MaxTerm=2, MaxSrcTerm=1, MaxHB=0, UseD="FALSE", StartModes="StartOkCtx",
                                                CfgOK="CfgThree", SeqSetup="FALSE", AllowCloseSub="TRUE"), dict(simulate=600 if quick else 3000, depth=500, timeout=2400, cap=400 if quick else None)))
+    jobs = [(t, c, dict(kw, fks=sc.FKS_SINGLE)) for t, c, kw in jobs]   # how filters are written is C12's subject (and finding)
     gen = sc.generate_all(ctx, jobs)
     for tag, _, _ in jobs:
         s, n = gen[tag]
